@@ -467,7 +467,7 @@ theorem opCtxs_sub {o : OperationDef} (ho : o ∈ opsOf D) : ∀ c ∈ opCtxs S 
     | none => simp [hf] at hc
     | some f =>
       simp only [hf] at hc
-      exact ctxsOfDef_sub (d := .frag f) (frag_mem_doc (frag?_mem hf)) c (by simpa [ctxsOfDef] using hc)
+      exact ctxsOfDef_sub (d := .frag f) (frag_mem_doc (frag?_mem_frags hf)) c (by simpa [ctxsOfDef] using hc)
 
 omit hS hNE in
 theorem opDirSites_sub {o : OperationDef} (ho : o ∈ opsOf D) : ∀ x ∈ opDirSites S D o, x ∈ dirSites S D := by
@@ -480,7 +480,7 @@ theorem opDirSites_sub {o : OperationDef} (ho : o ∈ opsOf D) : ∀ x ∈ opDir
     | none => simp [hf] at hx
     | some f =>
       simp only [hf] at hx
-      exact Or.inl ⟨.frag f, frag_mem_doc (frag?_mem hf), hx⟩
+      exact Or.inl ⟨.frag f, frag_mem_doc (frag?_mem_frags hf), hx⟩
   · exact Or.inr (ctxDirSites_mono (opCtxs_sub R ho) x hx)
 
 omit hS hNE in
